@@ -60,6 +60,20 @@ def train_on_grid(draw, n, pool, earlier, max_spikes, related=False):
              else (max(0, min(n - k + 1, n // 2)), n))
         return _uniq_sorted(draw(st.lists(st.integers(lo, hi), min_size=k, max_size=k,
                                           unique=True)))
+    if n >= 62 and draw(st.integers(0, 39)) == 0:
+        # a train whose length sits on or next to a power of two (63..257 spikes; up to
+        # 1025 in the thorough tier): blocked / chunked kernels, size-threshold fast
+        # paths and preallocated buffers have their boundaries there
+        tops = [63, 64, 65, 127, 128, 129, 255, 256, 257]
+        if max_spikes > 8:
+            tops += [511, 512, 513, 1023, 1024, 1025]
+        tops = [k for k in tops if k <= n + 1]
+        k = draw(st.sampled_from(tops))
+        if draw(st.booleans()):
+            a = draw(st.integers(0, n + 1 - k))
+            return list(range(a, a + k))
+        return _uniq_sorted(draw(st.lists(st.integers(0, n), min_size=k, max_size=k,
+                                          unique=True)))
     if related and earlier and any(earlier):
         kinds = ["jitter"] * 6 + ["random", "pool", "copy"]
     kind = draw(st.sampled_from(kinds))
